@@ -1,27 +1,38 @@
 (* C05 — what the correspondence check evaluates on every case. *)
 From Yv Require Export Common.Base C05.Model C05.Spec.
 
-(* One case: the tree, the working directory, the noglob option, the field (attributed characters),
-   and what the implementation's glob returned. *)
-Definition case := (fs * str * bool * list achar * outcome)%type.
+(* One case of the expansion streams: the tree, the working directory, the
+   noglob option, the field (attributed characters), and what the
+   implementation's glob returned.
+   One case of the context stream: a place of the shell language and whether
+   the word `*` written there came out expanded ([None]: neither `*` nor a
+   file name was seen). *)
+Inductive case :=
+| GlobCase (t : fs) (cwd : str) (noglob : bool) (field : list achar) (out : outcome)
+| ContextCase (c : context) (observed : option bool).
 
 Definition outcome_eqb (a b : outcome) : bool :=
   match a, b with
   | GFields x, GFields y => strs_eqb x y
   | GPanic, GPanic => true
-  | GOutOfDomain, GOutOfDomain => true
   | _, _ => false
   end.
 
 Definition run_case (c : case) : verdict :=
-  let '(t, cwd, noglob, field, out) := c in
-  if negb (wf_fs t && wf_cwd cwd) then 99%N
-  else if negb (field_supported field) then 99%N
-  else
-    (* oracle first: evaluated on the implementation's output only *)
-    match fs_oracle t cwd noglob field out with
-    | Some k => (2 + k)%N
-    | None => if outcome_eqb (glob_model t cwd noglob field) out then 0%N else 1%N
-    end.
+  match c with
+  | GlobCase t cwd noglob field out =>
+      if negb (wf_fs t && wf_cwd cwd) then 99%N
+      else
+        (* oracle first: evaluated on the implementation's output only *)
+        match fs_oracle t cwd noglob field out with
+        | Some k => (2 + k)%N
+        | None => if outcome_eqb (glob_model t cwd noglob field) out then 0%N else 1%N
+        end
+  | ContextCase cx observed =>
+      match observed with
+      | None => 6%N
+      | Some b => if Bool.eqb b (posix_expands cx) then 0%N else 7%N
+      end
+  end.
 
 Definition run_cases := run_cases_with run_case.
